@@ -117,7 +117,7 @@ Definition eu_deg2rad (e : T * T * T) : T * T * T :=
 Fixpoint lmin (d : T) (l : list T) : T :=
   match l with
   | [] => d
-  | x :: l' => let m := lmin x l' in if o_ltb O x m then x else m
+  | x :: l' => lmin (if o_ltb O x d then x else d) l'
   end.
 Definition list_min (l : list T) : T := match l with [] => o_ofZ O 0 | x :: l' => lmin x l' end.
 
